@@ -58,11 +58,11 @@ def seg? (s : String) : Option Seg :=
 /-- table / alias / target names: non-empty, modelled alphabet -/
 def tblOk (n : Name) : Bool := nameOk n && !n.isEmpty
 
--- expressions: modelled alphabet (every wildcard element is quoted by the code, so nothing else is needed)
 /-- table names and alias targets are index names: additionally a simple file name (no `\\`, not `.`/`..`;
 `/` is outside the alphabet anyway) — the code rejects other names since the path-safety fix -/
 def idxOk (n : Name) : Bool := tblOk n && !n.contains '\\' && n != ['.'] && n != ['.', '.']
 
+/-- expressions: modelled alphabet (every wildcard element is quoted by the code, so nothing else is needed) -/
 def exprInFragment (expr : Name) : Bool := expr.all inAlphabet
 
 def doExpand (args : List String) : String :=
